@@ -170,6 +170,9 @@ type c16Plan struct {
 	Unsafe   bool `json:"unsafe"`
 	// UnsafeFirst: `--listen-unsafe ADDR0 --listen ADDR` – the later plain --listen wins, so the listener is not unsafe
 	UnsafeFirst bool `json:"unsafe_first"`
+	// StartPut: `--bind start:put(q999999.)`, and the first requests are sent before the interface has come to rest:
+	// a list of actions bound to a key can never run before the start event's, so neither can a POSTed one
+	StartPut bool `json:"start_put,omitempty"`
 }
 
 // actions that start a process (man page: everything that takes a command)
@@ -305,6 +308,10 @@ func genC16Plan(r *zsim.Rng) *c16Plan {
 	if r.Chance(1, 4) && len(p.Procs) == 0 {
 		p.Procs = append(p.Procs, procSpec{DelaysMs: []int{r.Range(500, 4000)}})
 	}
+	if r.Chance(1, 5) && len(p.Events) > 0 && p.Events[0].Kind == "settle" {
+		p.StartPut = true
+		p.Events = p.Events[1:]
+	}
 	p.Events = append(p.Events, sysEvent{Kind: "httpwait"}, sysEvent{Kind: "settle"})
 	// the server must still answer a valid, authorised GET after everything
 	p.HTTP = append(p.HTTP, httpSpec{ID: n, Method: "GET", Path: "/", Version: "HTTP/1.1", KeyMode: 1, Wait: true})
@@ -324,9 +331,13 @@ func runC16(c *runCtx) {
 		sp.Args[0] = "--listen-unsafe"
 	}
 	nExtra := 2
+	if plan.StartPut {
+		sp.Args = append([]string{"--bind", "start:put(q999999.)"}, sp.Args...)
+		nExtra += 2
+	}
 	if plan.UnsafeFirst && !plan.Unsafe {
 		sp.Args = append([]string{"--listen-unsafe", "localhost:7777"}, sp.Args...)
-		nExtra = 4
+		nExtra += 2
 	}
 	defer func() { sp.Args = sp.Args[nExtra:] }()
 	r := newSysRun(c, sp)
@@ -648,7 +659,9 @@ func runC16(c *runCtx) {
 	got := st.Query
 	if !atRest {
 		c.count("settle.busy_at_end", 1)
-	} else if stripTyped(got) != wantQuery && len(c.viol) == 0 {
+	} else if plan.StartPut && stripTyped(got) != "q999999."+wantQuery && len(c.viol) == 0 {
+		c.violate("c16.actions", "query after all requests is %q; the start binding puts %q first, then the authorised valid POSTs answered 200 should have added exactly %q (each once, in order): no list of actions bound to a key runs before the start event's", got, "q999999.", wantQuery)
+	} else if !plan.StartPut && stripTyped(got) != wantQuery && len(c.viol) == 0 {
 		c.violate("c16.actions", "query after all requests is %q; the authorised valid POSTs answered 200 should have produced exactly %q (each once, in order)", got, wantQuery)
 	}
 	// a non-local listener never runs process-executing actions from the network … (none are sent; the key binding may)
